@@ -152,7 +152,7 @@ def erase(v, names):
     """clear_features(*names): unary feature values named in `names` are removed everywhere."""
     if v[0] == 'A':
         f = v[2]
-        if f is not None and f[0] == 'U' and f[1] in names:
+        if f is not None and feat_print(f) in names:        # a feature is named by its text (unary value or the whole triple)
             return ('A', v[1], None)
         return v
     return ('F', erase(v[1], names), v[2], erase(v[3], names))
